@@ -48,7 +48,7 @@ func isUnauthorized(c ipCase) bool {
 // (parsed lists, verdicts) must not change the verdict of a later peer.
 func TestC10IPPolicySequences(t *testing.T) {
 	sub := lab.Sub("admin-ip-policy-sequences", "rapid: a policy as in admin-ip-policy and 2..8 requests served by ONE balancer + NewMux; each peer is drawn as in admin-ip-policy or is a NEIGHBOUR of an earlier peer of the sequence "+
-		"(one bit of its address flipped: bit 0,1,2,7,8,15,16,31,32,63,64,65 or 95 from the low end; same /64, same /24, ...), the same address on another port, or exactly the same peer again; no forged headers; with a token configured the credential varies along the sequence (exact / near-miss / absent), so that an unauthorised request follows an authorised one to the same endpoint; requests that may be served only read (GET /v1/backends, /v1/metrics), refused peers send every kind of request; "+
+		"(one bit of its address flipped: bit 0,1,2,7,8,15,16,31,32,63,64,65 or 95 from the low end; same /64, same /24, ...), the same address on another port, or exactly the same peer again; no forged address headers, other client-supplied headers (Accept, Content-Type, ...) as in admin-ip-policy; with a token configured the credential varies along the sequence (exact / near-miss / absent), so that an unauthorised request follows an authorised one to the same endpoint; requests that may be served only read (GET /v1/backends, /v1/metrics), refused peers send every kind of request; "+
 		"oracle per request as in admin-ip-policy (reference policy on the TCP peer only); non-trivial = two peers of the sequence whose addresses differ but share their upper 64 bits (IPv6) or upper 24 bits (IPv4) get different verdicts")
 	sub.NontrivialFloor(0.10)
 	sub.Floor("neighbour-peer", 0.5)
@@ -67,7 +67,7 @@ func TestC10IPPolicySequences(t *testing.T) {
 			v Verdict
 		}
 		var hist []seen
-		nt, neighbours, unauth := false, false, false
+		nt, neighbours, unauth, otherHeaders := false, false, false, false
 		var trace []string
 		for i := 0; i < n; i++ {
 			c := genIPCase(rt, pol, false)
@@ -105,10 +105,15 @@ func TestC10IPPolicySequences(t *testing.T) {
 				if rapid.Bool().Draw(rt, "read_metrics") {
 					c.Req = Req{Kind: "metrics", Method: "GET", Path: "/v1/metrics"}
 				}
-				c.Req.Remote, c.Req.Auth = body.Remote, body.Auth
+				c.Req.Remote, c.Req.Auth, c.Req.Extra = body.Remote, body.Auth, body.Extra
 			}
 			viol, verdict, self := ipOracle(s, c)
-			trace = append(trace, fmt.Sprintf("%s %s from %s -> %s", c.Req.Method, c.Req.Path, c.Req.Remote, verdict))
+			line := fmt.Sprintf("%s %s from %s -> %s", c.Req.Method, c.Req.Path, c.Req.Remote, verdict)
+			if len(c.Req.Extra) > 0 {
+				line += fmt.Sprintf(" headers %q", c.Req.Extra)
+				otherHeaders = true
+			}
+			trace = append(trace, line)
 			if self != "" {
 				rt.Fatalf("harness self-check: %+v: %s", c, self)
 			}
@@ -139,6 +144,9 @@ func TestC10IPPolicySequences(t *testing.T) {
 		}
 		if unauth {
 			labels = append(labels, "credential-varies")
+		}
+		if otherHeaders {
+			labels = append(labels, "other-client-headers")
 		}
 		sub.Case(map[string]any{"policy": pol, "token": base.Token, "sequence": trace}, nt, labels...)
 	})
